@@ -166,6 +166,11 @@ func (m *mavenExtension) init(input string) error {
 	first := true
 	prevCat := versionUnknown
 	input = strings.ToLower(input)
+	if input != "" && (input[0] == '.' || input[0] == '-') {
+		// Like Maven, read a leading separator as following a zero:
+		// "-1" is "0-1" and ".1" is "0.1".
+		input = "0" + input
+	}
 	for str, s := "", input; s != ""; {
 		var e mavenElement
 		str, s = nextMavenElem(s)
